@@ -19,8 +19,12 @@ Definition pois_coef (w b p : vec) : vec := vmul w (map2q (fun bj pj => 1 - bj /
 Definition pois_grad (A' : mat) (n : nat) (w b p : vec) : vec := tmatvec A' (pois_coef w b p) n.
 Definition pois_gap (A' : mat) (base' : vec) (n : nat) (lb ub w b x : vec) : Q :=
   let g := pois_grad A' n w b (predict A' base' x) in dot g x - boxmin g lb ub.
+(* excess of x over every in-bound point, through a reference point x0 (untrusted, e.g. a high-accuracy optimum):
+   tangent at x towards x0  +  Frank-Wolfe gap at x0.  First-order tight, unlike the gap at x itself. *)
+Definition pois_excess (A' : mat) (base' : vec) (n : nat) (lb ub w b x x0 : vec) : Q :=
+  dot (pois_coef w b (predict A' base' x)) (vsub (predict A' base' x) (predict A' base' x0)) + pois_gap A' base' n lb ub w b x0.
 Record pcase := { p_K : kmat; p_A : mat; p_n : nat; p_lb : vec; p_ub : vec; p_base : vec; p_w : vec; p_b : vec;
-                  p_X : vec; p_Xraw : vec; p_Bpred : vec; p_in_gamut : bool; p_eps : Q; p_tolb : Q; p_tolc : Q }.
+                  p_X : vec; p_X0 : vec; p_Xraw : vec; p_Bpred : vec; p_in_gamut : bool; p_eps : Q; p_tolb : Q; p_tolc : Q }.
 Definition pverdict (c : pcase) : bool :=
   let A' := transA (p_K c) (p_A c) (p_n c) in let base' := transB (p_K c) (p_base c) in
   let p := predict A' base' (p_X c) in
@@ -28,7 +32,8 @@ Definition pverdict (c : pcase) : bool :=
   in_boxb (p_X c) (p_lb c) (p_ub c) && all_pos p && all_nonneg (p_b c) && all_nonneg (p_w c) &&
   forallb (fun r => Nat.eqb (length r) (p_n c)) A' && Nat.eqb (length (p_w c)) (length A') && Nat.eqb (length (p_b c)) (length A') &&
   Nat.eqb (length base') (length A') &&
-  Qle_bool (pois_gap A' base' (p_n c) (p_lb c) (p_ub c) (p_w c) (p_b c) (p_X c)) (p_eps c) &&
+  in_boxb (p_X0 c) (p_lb c) (p_ub c) && all_pos (predict A' base' (p_X0 c)) && Nat.eqb (length (p_X0 c)) (p_n c) && Nat.eqb (length (p_X c)) (p_n c) &&
+  Qle_bool (pois_excess A' base' (p_n c) (p_lb c) (p_ub c) (p_w c) (p_b c) (p_X c) (p_X0 c)) (p_eps c) &&
   vclose (1 # 100000000) (1 # 100000000) (predict A' base' (p_Xraw c)) (p_Bpred c) &&
   vclose_abs (p_tolb c) (p_X c) (p_Xraw c) &&
   (if p_in_gamut c then vclose_abs (p_tolc c) p (p_b c) else true).
